@@ -30,6 +30,8 @@ CONSTANTS
     CloseKinds,           \* subset of {"nil","custom"}: Close* (nil error) / Close*WithError(custom)
     MaxCalls,             \* bound on the number of calls
     Strict,               \* TRUE: exactly the code.  FALSE: additionally everything the property leaves open
+    EagerPark,            \* FALSE: literal.  TRUE (trace validation only): a call evaluates <deadline>.wait() in the
+                          \* same step that brings it to its select (R2 / WLock / CountBack), see EnterSelect
     Allowed(_),           \* Allowed(t): the operations thread t may call
     Budget(_)             \* Budget(t): the number of calls thread t may make
 
@@ -84,6 +86,14 @@ DlOf(t) == IF th[t].op \in WriteOps THEN "wr" ELSE "rd"
 
 \* the deadline channel captured by a parked call is closed
 DlFired(t) == th[t].dlc = "old" \/ (th[t].dlc = "cur" /\ dl[End(t)][DlOf(t)].closed)
+
+\* Entering a select.  Literally, the call first evaluates p.<x>Deadline.wait() (WPark / RPark: it captures
+\* the CURRENT cancel channel) and then blocks.  With EagerPark the capture is merged into the preceding step of
+\* the same call.  This is a schedule of the literal model (WPark/RPark taken immediately), and it loses no
+\* observable history: capturing earlier can only turn "the current channel" into "an old, closed channel",
+\* which enables more (a timeout), never less, and no other call reads what was captured.  It removes one
+\* transient state per select from the interleavings TLC has to infer.
+EnterSelect(r, sel, park) == IF EagerPark THEN [r EXCEPT !.pc = park, !.dlc = "cur"] ELSE [r EXCEPT !.pc = sel]
 
 Init ==
     /\ done = [d \in Ends |-> FALSE]
@@ -160,7 +170,7 @@ W2(t) ==
 WLock(t) ==
     /\ th[t].pc = "wlk" /\ mu[End(t)] = "none"
     /\ mu' = [mu EXCEPT ![End(t)] = t]
-    /\ th' = [th EXCEPT ![t].pc = "wsel"]
+    /\ th' = [th EXCEPT ![t] = EnterSelect(@, "wsel", "wpark")]
     /\ UNCHANGED <<done, err, dl, cnt, ncalls, panic>>
     /\ Internal("WLock", t)
 
@@ -174,7 +184,7 @@ WPark(t) ==
 \* Only with Strict = FALSE: the property does not say whether a zero-length Write needs a reader
 \* (the code, like net.Pipe, performs one rendezvous for it).
 WZero(t) ==
-    /\ ~Strict /\ th[t].pc = "wsel" /\ th[t].sz = 0 /\ th[t].once
+    /\ ~Strict /\ th[t].pc \in {"wsel", "wpark"} /\ th[t].sz = 0 /\ th[t].once
     /\ th' = [th EXCEPT ![t] = Fin(@, 0, "nil")]
     /\ mu' = [mu EXCEPT ![End(t)] = "none"]
     /\ UNCHANGED <<done, err, dl, cnt, ncalls, panic>>
@@ -203,7 +213,7 @@ CountBack(r) ==
        /\ panic' = IF k > th[w].sz THEN "slice bounds out of range in write" ELSE panic
        /\ mu' = IF rem > 0 THEN mu ELSE [mu EXCEPT ![End(w)] = "none"]      \* deferred Unlock
        /\ th' = [th EXCEPT
-            ![w] = IF rem > 0 THEN [@ EXCEPT !.pc = "wsel", !.sz = rem, !.n = nn, !.once = FALSE]
+            ![w] = IF rem > 0 THEN EnterSelect([@ EXCEPT !.sz = rem, !.n = nn, !.once = FALSE], "wsel", "wpark")
                               ELSE Fin(@, nn, "nil"),
             ![r] = IF th[r].op = "Read" THEN Fin(@, k, "nil")
                    ELSE IF k < th[r].ln THEN Fin(@, rn, "sink")              \* short write: sink error
@@ -248,7 +258,7 @@ R2(t) ==
     /\ th[t].pc = "r2"
     /\ IF dl[End(t)]["rd"].closed
          THEN th' = [th EXCEPT ![t] = Fin(@, th[t].n, "timeout")]
-         ELSE th' = [th EXCEPT ![t].pc = "rsel"]
+         ELSE th' = [th EXCEPT ![t] = EnterSelect(@, "rsel", "rpark")]
     /\ UNCHANGED <<done, err, mu, dl, cnt, ncalls, panic>>
     /\ Internal("R2", t)
 
